@@ -544,11 +544,20 @@ pub fn oracle_one(c: &[u64]) -> Vec<String> {
         // where the property is explicit about the ratio (C19_ratio_transfer): border-box, no min/max, exactly one axis of
         // the style size definite and not below padding+border -> the other axis is transferred
         let no_minmax = (11..19).step_by(2).all(|i| c[i] == 0);
-        if c[3] == 0 && no_minmax && rt > 0.0 {
-            let exp = match (s0[0], s0[1]) {
-                (Some(a), None) if a >= pb[0] => Some((a, (a / rt).max(pb[1]))),
-                (None, Some(bb)) if bb * rt >= pb[0] => Some((bb * rt, bb.max(pb[1]))),
-                _ => None,
+        if no_minmax && rt > 0.0 {
+            let exp = if c[3] == 0 {
+                match (s0[0], s0[1]) {
+                    (Some(a), None) if a >= pb[0] => Some((a, (a / rt).max(pb[1]))),
+                    (None, Some(bb)) if bb * rt >= pb[0] => Some((bb * rt, bb.max(pb[1]))),
+                    _ => None,
+                }
+            } else {
+                // content-box: the style size and the ratio describe the content box; padding+border are added on both axes
+                match (s0[0], s0[1]) {
+                    (Some(a), None) if a >= 0.0 => Some((a + pb[0], a / rt + pb[1])),
+                    (None, Some(bb)) if bb >= 0.0 => Some((bb * rt + pb[0], bb + pb[1])),
+                    _ => None,
+                }
             };
             if let Some((ew, eh)) = exp {
                 if !(tol(w, ew) && tol(h, eh)) {
